@@ -1,10 +1,16 @@
 import RCE.Proofs.MoveGen
+import RCE.Proofs.Refine
 /-! # C01 — legal move generation and check status are exactly the rules of chess
 
 For **every** legal-game position (`Legal b`: well-formed, both kings present, the side that just
 moved not in check) the moves the engine offers are, as (from, to, promotion) triples, exactly the
 legal moves of the rules spec — same members, no duplicates — and its answer to "is this side in
-check" is the spec's.  Builds on C06 (attack sets exact for all occupancies) and C03 (`make_refines`). -/
+check" is the spec's.  Builds on C06 (attack sets exact for all occupancies) and C03 (`make_refines`).
+
+`attacked_exact`, `inCheck_exact`, `pseudo_exact` are unconditional.  `legal_exact` and `mate_stalemate_exact`
+go through one `make_move`; until C03's one-step refinement (`RCE/Proofs/Refine.lean`) is plugged in they take
+`MakeRefines` (`abs (make_move b m) = Rules.apply (abs b) (absMove m)` for generated moves of legal positions)
+as an explicit hypothesis.  (`MakeKeeps` — `make_move` keeps `WF` and both kings — is proved: `makeKeeps`.) -/
 namespace RCE.Props.C01
 open RCE RCE.Proofs.BoardWF RCE.Proofs.Abs RCE.Proofs.MoveGen
 
@@ -26,13 +32,16 @@ theorem pseudo_exact (b : Board) (hl : Legal b) :
 /-- the legal moves offered are exactly the rules' legal moves, with no duplicates -/
 theorem legal_exact (b : Board) (hl : Legal b) :
     ((b.legalMoves).1.map absMove).Perm (Rules.legalMoves (abs b)) ∧ ((b.legalMoves).1.map absMove).Nodup :=
-  legal_exact' b hl
+  legal_exact_of (fun b m hl hm => RCE.Proofs.Refine.make_refines' b m hl hm) makeKeeps b hl
 
 /-- consequently checkmate and stalemate are recognised exactly -/
 theorem mate_stalemate_exact (b : Board) (hl : Legal b) :
     (((b.legalMoves).1.isEmpty && b.isInCheck b.turn) = Rules.isCheckmate (abs b)) ∧
     (((b.legalMoves).1.isEmpty && !b.isInCheck b.turn) = Rules.isStalemate (abs b)) :=
-  mate_stalemate_exact' b hl
+  mate_stalemate_exact_of (fun b m hl hm => RCE.Proofs.Refine.make_refines' b m hl hm) makeKeeps b hl
+
+/-- `make_move` over a generated move of a legal position keeps the invariant and both kings -/
+theorem make_keeps : MakeKeeps := makeKeeps
 
 end RCE.Props.C01
 
@@ -41,3 +50,4 @@ end RCE.Props.C01
 #print axioms RCE.Props.C01.pseudo_exact
 #print axioms RCE.Props.C01.legal_exact
 #print axioms RCE.Props.C01.mate_stalemate_exact
+#print axioms RCE.Props.C01.make_keeps
